@@ -229,9 +229,15 @@ def check_cicje(case, ev):
     ev.case(case, nsub >= 2 and len(vals) == 2, cl)
 
 
+def empty(slice_i, n):
+    """groups without sub-propositions (the empty conjunction holds, the empty disjunction does not), alone and inside every connective"""
+    for spec in S.empty_shapes(slice_i, n):
+        yield {"model": spec}
+
+
 def parts(tier):
     n_slices = 8
-    ps = [Part("exhaustive%d" % i, enumerate_cases=(lambda t, i=i: exhaustive(i, n_slices)), check=check_ast,
+    ps = [Part("empty0", enumerate_cases=(lambda t: empty(0, 1)), check=check_ast, time_quick=120.0)] + [Part("exhaustive%d" % i, enumerate_cases=(lambda t, i=i: exhaustive(i, n_slices)), check=check_ast,
                time_quick=120.0) for i in range(n_slices)]
     ps.append(Part("random", strategy=lambda t: S.model_spec(kinds=KINDS, depth=3 if t == "quick" else 4, max_int=0, max_bool=5,
                                                              positive_only=True, min_leaves=2).map(lambda s: {"model": s}),
